@@ -308,6 +308,8 @@ fn judge_text<'a, T: DiffableStr + ?Sized + std::fmt::Debug + 'a>(d: &'a TextDif
     if all != concat {
         return Err(format!("iter_all_changes {:?} != concatenation of per-op expansions {:?}", all, concat));
     }
+    let tup = |c: Change<&'a T>| (c.tag(), c.old_index(), c.new_index(), c.value());
+    consumers_agree("iter_all_changes", || d.iter_all_changes(), tup, &concat, radius)?;
     let mut ud = d.unified_diff();
     ud.context_radius(radius);
     let mut hunks = 0;
@@ -321,6 +323,19 @@ fn judge_text<'a, T: DiffableStr + ?Sized + std::fmt::Debug + 'a>(d: &'a TextDif
         if got != want {
             return Err(format!("UnifiedDiffHunk::iter_changes {:?} != concatenation over hunk.ops() {:?}", got, want));
         }
+        if hunks <= 3 {
+            let h2 = similar::udiff::UnifiedDiffHunk::new(h.ops().to_vec(), d, true);
+            consumers_agree("UnifiedDiffHunk::iter_changes", || h2.iter_changes(), |c| (c.tag(), c.old_index(), c.new_index(), c.value()), &want, hunks)?;
+        }
+    }
+    // the hunk iterator itself under every consumer (reference: a plain next() walk)
+    {
+        let mut walk = vec![];
+        let mut it = ud.iter_hunks();
+        while let Some(h) = it.next() {
+            walk.push((h.ops().to_vec(), h.to_string()));
+        }
+        consumers_agree("UnifiedDiff::iter_hunks", || ud.iter_hunks(), |h| (h.ops().to_vec(), h.to_string()), &walk, radius)?;
     }
     // hunks built by hand from arbitrary op lists (only the changes; reversed order)
     let only_changes: Vec<similar::DiffOp> = d.ops().iter().filter(|o| !matches!(o, DiffOp::Equal { .. })).cloned().collect();
@@ -370,6 +385,9 @@ fn judge_text<'a, T: DiffableStr + ?Sized + std::fmt::Debug + 'a>(d: &'a TextDif
         }
         if got != want {
             return Err(format!("UnifiedDiffHunk::new({:?}).iter_changes() {:?} != concatenation of per-op expansions {:?}", ops, got, want));
+        }
+        if ops.len() <= 12 {
+            consumers_agree("UnifiedDiffHunk::new(..).iter_changes()", || h.iter_changes(), |c| (c.tag(), c.old_index(), c.new_index(), c.value()), &want, ops.len())?;
         }
     }
     // replaying the whole op list reproduces it: into a Capture, and through the Replace adapter
